@@ -35,20 +35,20 @@ def _to_config(c):
     return out[0]
 
 
-def r1_option_mapping(w):
-    r = RuleResult('C16.R1', 'option mapping: max_width<-column, tab_spaces<-tab_width, reorder_import_items<-reorder flag, rest from Default', floor=4)
-    c = Cli(w)
-    b = _to_config(c)
-    v = c.view(b)
-    cfg_adt = adt_lookup(w, CONFIG_ID)
-    if cfg_adt is None:
-        raise AnchorMissing('Config ADT')
-    fields = [f['name'] for f in cfg_adt['variants'][0]['fields']]
-    # straight-line evaluation of the function: per Config-typed local, where each field comes from.  Accepted shapes: one
-    # Config literal (with or without `..Default::default()`), or a default()/new() value whose fields are then assigned.
+DEFAULT_DESC = 'call:typstyle_core::config::{impl#0}::default()'
+
+
+def eval_config_value(w, b, v, fields, depth=0):
+    """Straight-line evaluation of a function that builds a Config: per Config-typed local, where each field comes from.  Accepted shapes:
+    a Config literal (with or without `..Default::default()`), default()/new(), builder methods of typstyle-core (`fn(self, x) -> Self`, evaluated the same
+    way and applied as field transformers), moves between locals, and field assignments.  Returns (state of the returned value | None, reason, span).
+    Field values are provenance descriptions in b (`describe_operand`), DEFAULT_DESC, or - inside a builder - 'self.<field>'."""
     def is_cfg(l):
         return b.locals[l]['ty'].get('id') == CONFIG_ID
     state = {}
+    for i in range(1, b.arg_count + 1):
+        if is_cfg(i):
+            state[i] = {name: 'self.' + name for name in fields}
     bb, seen, shape_bad = 0, set(), None
     last_span = None
     while True:
@@ -63,7 +63,14 @@ def r1_option_mapping(w):
             l, proj, rv = st['p']['l'], st['p']['proj'], st['rv']
             if not proj:
                 if rv['r'] == 'agg' and rv.get('adt') == CONFIG_ID:
-                    state[l] = {name: v.describe_operand(rv['ops'][i]) for i, name in enumerate(fields)}
+                    state[l] = {}
+                    for i, name in enumerate(fields):
+                        op = rv['ops'][i]
+                        # `..base`: the field is moved out of another Config local
+                        if op['o'] in ('move', 'copy') and op['p']['l'] in state and len(op['p']['proj']) == 1 and op['p']['proj'][0].get('p') == 'field':
+                            state[l][name] = state[op['p']['l']][fields[op['p']['proj'][0]['i']]]
+                        else:
+                            state[l][name] = v.describe_operand(op)
                     last_span = st['span']
                 elif rv['r'] == 'use' and rv['op']['o'] in ('move', 'copy') and not rv['op']['p']['proj'] and rv['op']['p']['l'] in state:
                     state[l] = dict(state[rv['op']['p']['l']])
@@ -80,8 +87,50 @@ def r1_option_mapping(w):
         t = blk['term']
         if t['t'] == 'call' and not t['dest']['proj'] and is_cfg(t['dest']['l']):
             p_ = resolved_path(t) or callee_path(t) or ''
-            if re.search(r'^<typstyle_core::Config as std::default::Default>::default$|^typstyle_core::Config::new$', p_):
-                state[t['dest']['l']] = {name: 'call:typstyle_core::config::{impl#0}::default()' for name in fields}
+            rid = resolved_id(t)
+            tb = w.bodies.get(rid)
+            if re.search(r'^<typstyle_core::Config as std::default::Default>::default$', p_) or \
+                    (tb is not None and tb.crate is w.core and tb.short.endswith('::default') and tb.arg_count == 0
+                     and 'Default' in ((tb.j.get('impl_trait') or {}).get('path') or '') and tb.locals[0]['ty'].get('id') == CONFIG_ID):
+                state[t['dest']['l']] = {name: DEFAULT_DESC for name in fields}
+            elif re.search(r'Clone>::clone$|Clone::clone$', p_) and t['args'] and t['args'][0]['o'] in ('move', 'copy'):
+                src = [o for o in v.pv.origins_operand(t['args'][0]) if o[0] == 'ref']
+                if len(src) == 1 and src[0][1][0] in state and not src[0][1][1]:
+                    state[t['dest']['l']] = dict(state[src[0][1][0]])
+                else:
+                    shape_bad = 'a clone of a Config the evaluator does not follow'
+            elif tb is not None and tb.crate is w.core and depth < 3 and tb.locals[0]['ty'].get('id') == CONFIG_ID:
+                from paths import BodyView
+                sub_state, why, _sp = eval_config_value(w, tb, BodyView(w, tb), fields, depth + 1)
+                sub = None if why else sub_state.get(0)
+                if sub is None:
+                    shape_bad = 'a Config value returned by %s (%s)' % (p_, why)
+                else:
+                    cfg_args = [i for i in range(1, tb.arg_count + 1) if tb.locals[i]['ty'].get('id') == CONFIG_ID]
+                    base = None
+                    if cfg_args:
+                        a = t['args'][cfg_args[0] - 1]
+                        if a['o'] in ('move', 'copy') and not a['p']['proj'] and a['p']['l'] in state:
+                            base = state[a['p']['l']]
+                    out = {}
+                    for name in fields:
+                        d = sub[name]
+                        m = re.match(r'^self\.(\w+)$', d)
+                        pm = re.match(r'^param(\d+)$', d)
+                        if m:
+                            if base is None:
+                                shape_bad = 'a builder applied to a Config the evaluator does not follow'
+                                break
+                            out[name] = base[m.group(1)]
+                        elif pm:
+                            out[name] = v.describe_operand(t['args'][int(pm.group(1)) - 1])
+                        elif d == DEFAULT_DESC or d.startswith('const:'):
+                            out[name] = d
+                        else:
+                            out[name] = 'via %s: %s' % (tb.short, d)
+                    else:
+                        state[t['dest']['l']] = out
+                    last_span = t['span']
             else:
                 shape_bad = 'a Config value returned by %s' % p_
         if t['t'] == 'return':
@@ -91,6 +140,23 @@ def r1_option_mapping(w):
             shape_bad = 'a branch'
             break
         bb = succ[0]
+    return state, shape_bad, last_span
+
+
+def config_fields(w):
+    cfg_adt = adt_lookup(w, CONFIG_ID)
+    if cfg_adt is None:
+        raise AnchorMissing('Config ADT')
+    return [f['name'] for f in cfg_adt['variants'][0]['fields']]
+
+
+def r1_option_mapping(w):
+    r = RuleResult('C16.R1', 'option mapping: max_width<-column, tab_spaces<-tab_width, reorder_import_items<-reorder flag, rest from Default', floor=4)
+    c = Cli(w)
+    b = _to_config(c)
+    v = c.view(b)
+    fields = config_fields(w)
+    state, shape_bad, last_span = eval_config_value(w, b, v, fields)
     if shape_bad or 0 not in state:
         r.bad({'fn': b.short}, '%s|shape' % b.short, 'option mapping is not a straight-line construction of one Config value (found %s)' % (shape_bad or 'no Config value reaching the return'), b.loc())
         return r
@@ -107,26 +173,6 @@ def r1_option_mapping(w):
                 r.ok(cons, 'library default')
             else:
                 r.bad(cons, 'mapping|%s' % name, 'Config.%s is set from %s instead of the library default' % (name, desc), b.loc(last_span))
-    return r
-    bi, si, s = aggs[0]
-    for idx, name in enumerate(fields):
-        desc = v.describe_operand(s['rv']['ops'][idx])
-        cons = {'fn': b.short, 'field': name, 'from': desc}
-        if name in EXPECTED_MAPPING:
-            if desc == EXPECTED_MAPPING[name]:
-                r.ok(cons, 'pure copy of the CLI option')
-            else:
-                r.bad(cons, 'mapping|%s' % name, 'Config.%s is set from %s, expected a pure copy of %s' % (name, desc, EXPECTED_MAPPING[name]), b.loc(s['span']))
-        else:
-            if re.match(r'^call:typstyle_core::config::\{impl#\d+\}::default\(\)', desc) or desc.startswith('field:typstyle_core::config::Config.' + name):
-                r.ok(cons, 'library default')
-            else:
-                r.bad(cons, 'mapping|%s' % name, 'Config.%s is set from %s instead of the library default' % (name, desc), b.loc(s['span']))
-    # no field is written after the literal
-    for bi2, blk in enumerate(b.blocks):
-        for s2 in blk['stmts']:
-            if s2['s'] == 'assign' and s2['p']['proj'] and b.locals[s2['p']['l']]['ty'].get('id') == CONFIG_ID:
-                r.bad({'fn': b.short}, 'mapping|post-write', 'a Config field is modified after the mapping literal in %s' % b.short, b.loc(s2['span']))
     return r
 
 
@@ -336,6 +382,12 @@ def r3_bytes_out(w):
     return r
 
 
+def _is_ok_payload(v, o):
+    """origin projection = field 0 of the Ok variant of a Result"""
+    pr = o[2]
+    return len(pr) == 2 and pr[0][0] == 'v' and pr[0][1] in (0, 'Ok') and pr[1] == ('f', 0)
+
+
 def r4_fallback(w):
     r = RuleResult('C16.R4', 'width-only convenience function: Config::new().with_width(width), formats `content`, falls back to `content`; wasm export is a plain call', floor=4)
     core = w.core
@@ -346,7 +398,38 @@ def r4_fallback(w):
     b = cands[0]
     from paths import BodyView
     v = BodyView(w, b)
-    ret = v.pv.peel(v.pv._origins_local(0, frozenset()))
+    fields = config_fields(w)
+
+    def check_primary(x, span):
+        """x: origin of the Result the function unwraps: format_content(Typstyle::new(cfg), content)"""
+        d = v.describe((x[0], x[1], ()))
+        cons = {'fn': b.short, 'primary': d}
+        m = re.match(r'^call:typstyle_core::\{impl#\d+\}::format_content\(call:typstyle_core::\{impl#\d+\}::new\((.*)\),param1\)$', d)
+        if m:
+            r.ok(cons, 'formats its own `content` parameter with Typstyle::new(..)')
+        else:
+            r.bad(cons, '%s|primary' % b.short, 'convenience function does not return format_content(content): %s' % d, b.loc(span))
+
+    def check_config():
+        # the Config handed to Typstyle::new: max_width <- width, everything else the library default (any straight-line construction)
+        state, shape_bad, last_span = eval_config_value(w, b, v, fields)
+        for bi2, t2 in b.calls():
+            if (callee_path(t2) or '').endswith('Typstyle::new'):
+                a = t2['args'][0]
+                st = state.get(a['p']['l']) if a['o'] in ('move', 'copy') and not a['p']['proj'] else None
+                if st is None:
+                    r.bad({'fn': b.short, 'config': v.describe_operand(a)}, '%s|config' % b.short,
+                          'the Config the convenience function hands to Typstyle::new is not a straight-line construction (%s)' % (shape_bad or v.describe_operand(a)), b.loc(t2['span']))
+                    continue
+                bad = [(n, st[n]) for n in fields if (st[n] != 'param2' if n == 'max_width' else st[n] != DEFAULT_DESC)]
+                cons = {'fn': b.short, 'config': {n: st[n] for n in fields}}
+                if not bad:
+                    r.ok(cons, 'max_width <- width, every other field the library default')
+                else:
+                    r.bad(cons, '%s|config' % b.short, 'convenience function configures the library with %s' % ', '.join('%s <- %s' % x for x in bad), b.loc(t2['span']))
+
+    ret_raw = v.pv._origins_local(0, frozenset())
+    ret = v.pv.peel(ret_raw)
     ok_shape = False
     for o in ret:
         if o[0] == 'call':
@@ -357,22 +440,8 @@ def r4_fallback(w):
                 # primary: format_content(Typstyle::new(cfg), content)
                 inner = v.pv.peel(v.pv.origins_operand(t['args'][0]))
                 for x in inner:
-                    d = v.describe(x)
-                    cons = {'fn': b.short, 'primary': d}
-                    m = re.match(r'^call:typstyle_core::\{impl#\d+\}::format_content\(call:typstyle_core::\{impl#\d+\}::new\((.*)\),param1\)$', d)
-                    if m:
-                        r.ok(cons, 'formats its own `content` parameter with Typstyle::new(..)')
-                    else:
-                        r.bad(cons, '%s|primary' % b.short, 'convenience function does not return format_content(content): %s' % d, b.loc(t['span']))
-                # config: Config::new().with_width(param2)
-                for bi2, t2 in b.calls():
-                    if (callee_path(t2) or '').endswith('Typstyle::new'):
-                        d = v.describe_operand(t2['args'][0])
-                        cons = {'fn': b.short, 'config': d}
-                        if re.match(r'^call:typstyle_core::config::\{impl#\d+\}::with_width\(call:typstyle_core::config::\{impl#\d+\}::new\(\),param2\)$', d):
-                            r.ok(cons, 'Config::new().with_width(width)')
-                        else:
-                            r.bad(cons, '%s|config' % b.short, 'convenience function configures the library with %s' % d, b.loc(t2['span']))
+                    check_primary(x, t['span'])
+                check_config()
                 # fallback closure / value
                 fb = v.pv.peel(v.pv.origins_operand(t['args'][1]))
                 for x in fb:
@@ -399,8 +468,41 @@ def r4_fallback(w):
                         else:
                             r.bad({'fn': b.short, 'fallback': d}, '%s|fallback' % b.short, 'fallback value is %s, not the input' % d, b.loc(t['span']))
     if not ok_shape:
+        # the same thing written as a `match` / `if let` / `let else` on the Result: the Ok payload of the primary call on one edge, the input on the Err edge
+        prim = [o for o in ret_raw if o[0] == 'call' and o[2] and re.search(r'::format_content$', resolved_path(v.pv.call_term(o)) or callee_path(v.pv.call_term(o)) or '')]
+        rest = [o for o in ret_raw if o not in prim]
+        if prim and all(_is_ok_payload(v, o) for o in prim):
+            ok_shape = True
+            for x in prim:
+                check_primary(x, v.pv.call_term(x)['span'])
+            check_config()
+            prim_keys = {(x[0], x[1]) for x in prim}
+
+            def on_err_edge(block):
+                for atom, vals, sbb in v.guards(block):
+                    if vals != {'Err'}:
+                        continue
+                    for o in v.pv.origins_operand(b.blocks[sbb]['term']['discr']):
+                        o = strip_casts(o)
+                        if o[0] == 'discr' and any((y[0], y[1]) in prim_keys for y in v.pv.peel(v.pv._origins(o[1][0], o[1][1], frozenset()))):
+                            return True
+                return False
+            for x in rest:
+                d = v.describe(x)
+                cons = {'fn': b.short, 'fallback': d}
+                vv = v.pv.through({x}, VIEW)
+                guarded = x[0] == 'call' and on_err_edge(x[1][0])
+                if vv == {('param', 1, ())} and guarded:
+                    r.ok(cons, 'the input, built only on the Err edge of the primary result')
+                elif vv == {('param', 1, ())}:
+                    r.bad(cons, '%s|fallback' % b.short, 'the input is returned on a path that is not the Err edge of the formatting result', b.loc())
+                else:
+                    r.bad(cons, '%s|fallback' % b.short, 'on a syntax error the convenience function returns %s, not its input' % d, b.loc())
+            if not rest:
+                r.bad({'fn': b.short}, '%s|fallback' % b.short, 'no fallback value on the Err edge', b.loc())
+    if not ok_shape:
         r.bad({'fn': b.short, 'returns': sorted(v.describe(o) for o in ret)}, '%s|shape' % b.short,
-              'convenience function does not have the shape format(..).unwrap_or_else(|_| content.to_string())', b.loc())
+              'convenience function neither has the shape format(..).unwrap_or_else(|_| content.to_string()) nor matches on the formatting result', b.loc())
     # unwrap_or_else closure must not be reachable for Ok: by std contract.  with_width writes max_width from its parameter:
     ww = [x for x in w.fn_bodies(core) if x.short.endswith('::with_width')]
     for x in ww:
